@@ -90,14 +90,21 @@ def validate_searches(rs, workfile, tag):
         cur.append(x)
     if cur:
         groups.append(cur)
-    states = 0
-    while groups:
-        flat = [x for g in groups for x in g]
+    states, accepted = 0, 0
+    # chunks of searches per TLC run: an invariant violation makes TLC print the whole behaviour up to the violating state, which takes
+    # minutes when thousands of searches are concatenated in front of it
+    CHUNK = 250
+    pos = 0
+    while pos < len(groups) and len(rejects) < 6:
+        chunk = groups[pos:pos + CHUNK]
+        flat = [x for g in chunk for x in g]
         common.write_ndjson(workfile, flat)
         r = common.tlc("LineSearchTrace", "LineSearchTrace.cfg", SPECDIR, env={"TRACE": workfile}, workers=1, timeout=2400, tag=tag)
         states += r.distinct
         if r.ok:
-            break
+            accepted += len(chunk)
+            pos += len(chunk)
+            continue
         line, name = None, None
         if r.invariant_violated:
             name = r.invariant_violated[0]
@@ -110,21 +117,20 @@ def validate_searches(rs, workfile, tag):
         if line is None:
             raise CheckError("TLC failed on %s:\n%s" % (workfile, r.out[-3000:]))
         n = 0
-        for gi, g in enumerate(groups):
+        for gi, g in enumerate(chunk):
             if line <= n + len(g):
                 rejects.append({"name": name, "search": g[0], "trials": g[1:-1][-6:], "ret": g[-1]})
-                del groups[gi]
+                accepted += gi              # the searches before the rejected one were accepted
+                pos += gi + 1               # go on with the searches after it
                 break
             n += len(g)
         else:
             raise CheckError("cannot locate rejected line %d" % line)
-        if len(rejects) >= 6:
-            break
     try:
         os.remove(workfile)
     except OSError:
         pass
-    return len(groups), rejects, states
+    return accepted, rejects, states
 
 
 def replay(rep, path):
